@@ -35,6 +35,7 @@ pub fn me_any() -> BoxedStrategy<u64> {
         6 => (9u32..=18, 0u32..4, gen::ac12_any(), any::<bool>(), base_pos()).prop_map(|(tc, ss, ac, odd, (la, lo))| airpos_me(tc, ss, ac, odd, la, lo)),
         1 => (9u32..=18, 0u32..4, gen::ac12_any(), 0u32..2, prop_oneof![Just(0u32), 0u32..131072], prop_oneof![Just(0u32), 0u32..131072]).prop_map(|(tc, ss, ac, f, la, lo)| bits::me_airpos(tc, ss, 0, ac, 0, f, la, lo)),
         4 => gen::vel_any().prop_map(|v| bits::me_velocity(&v)),
+        1 => gen::vel_pool().prop_map(|v| bits::me_velocity(&v)),
         1 => (prop_oneof![Just(3u32), Just(4u32), Just(0u32), Just(5u32), Just(6u32), Just(7u32)], gen::fill64()).prop_map(|(sub, fill)| { let mut m = bits::Me(bits::me_raw(19, fill)); m.set(6, 8, sub as u64); m.0 }),
         1 => (20u32..=22, 0u32..4, 0u32..4096, any::<bool>(), base_pos()).prop_map(|(tc, ss, ac, odd, (la, lo))| airpos_me(tc, ss, ac, odd, la, lo)),
         1 => (0u32..8, 0u32..8, gen::fill64()).prop_map(|(sub, ver, fill)| bits::me_opstatus(sub, ver, fill)),
@@ -63,6 +64,8 @@ pub fn mb_any() -> BoxedStrategy<u64> {
         2 => gen::r40().prop_map(|r| gen::mb40(&r)),
         2 => gen::r50_plausible().prop_map(|r| gen::mb50(&r)),
         2 => gen::r60_plausible().prop_map(|r| gen::mb60(&r)),
+        1 => gen::r50_pool().prop_map(|r| gen::mb50(&r)),
+        1 => gen::r60_pool().prop_map(|r| gen::mb60(&r)),
         2 => any::<u64>().prop_map(|f| f & ((1u64 << 56) - 1)),
     ]
     .boxed()
